@@ -3,6 +3,7 @@
 (tests pass with it, demo fails with it, demo passes without it) and file it under /verif/seeded/."""
 import json, os, shutil, subprocess, sys
 prop, i, wt = sys.argv[1], sys.argv[2], sys.argv[3]
+dst_i = sys.argv[4] if len(sys.argv) > 4 else i      # index under /verif/seeded (agents number their changes from 1)
 sd = os.path.join(wt, 'seeded')
 diff = os.path.join(sd, 'change%s.diff' % i)
 demo = os.path.join(sd, 'demo%s.py' % i)
@@ -25,7 +26,7 @@ finally:
 ok = rc0 == 0 and rc1 != 0 and '50 passed' in outt
 print('clean demo rc=%r | with change: tests=%r demo rc=%r -> %s' % (rc0, outt.strip().split('\n')[-1], rc1, 'CONFIRMED' if ok else 'NOT CONFIRMED'))
 if ok:
-    dst = os.path.join('/verif/seeded', '%s-%s' % (prop, i))
+    dst = os.path.join('/verif/seeded', '%s-%s' % (prop, dst_i))
     os.makedirs(dst, exist_ok=True)
     shutil.copy(diff, os.path.join(dst, 'patch.diff'))
     shutil.copy(demo, os.path.join(dst, 'demo.py'))
